@@ -140,3 +140,20 @@ Proof.
   exists lowstart_witness, 10, 5, 5.
   eexists. split; [vm_compute; left; reflexivity |]. vm_compute. repeat split; try reflexivity; discriminate.
 Qed.
+
+(** What is flagged as duplicate and not below the forget threshold is acknowledged: together
+    with [handler_accept_flagged] and [handler_dup_retained], an accepted packet is covered by
+    every later ACK of its space until it is forgotten (threshold or range limit). *)
+Lemma ack_covers_flagged : forall ops lvl now only f,
+  let h := fst (run newHandler ops) in
+  snd (h_get_ack h lvl now only) = Some f ->
+  exists sp x, sp_of lvl = Some sp /\ hist_of h sp = Some x /\
+    forall q, is_dup x q = true -> deletedBelow x <= q -> inR q (aRanges f).
+Proof.
+  intros ops lvl now only f h Hf.
+  destruct (h_get_ack_frame h lvl now only f Hf) as (sp & x & Hsp & Hx & Hr & _).
+  exists sp, x. split; [assumption | split; [assumption |]].
+  intros q Hd Hdb. destruct (invA_run ops sp x Hx) as (Hok & _).
+  apply (is_dup_spec x q Hok) in Hd. destruct Hd as [Hd | Hd]; [lia |].
+  rewrite Hr. unfold backward. now rewrite inR_rev.
+Qed.
